@@ -73,7 +73,7 @@ ALPHA = {
         "p": [ABSENT, None, 0, 7],
         "q": [ABSENT, None, "", "a", "b\"\\é"],
         "r": [ABSENT, None, False, True],
-        "f": [ABSENT, None, 1.5, -2.0],
+        "f": [ABSENT, None, 1.5, -2.0, 2],    # 2: a number written without a decimal point among decimal numbers
     },
 }
 KEYS = ["p", "q", "r", "f"]
